@@ -1104,9 +1104,19 @@ class TwoDSpectrumBase(DataSaveable):
         else:
             res1 = _resolution2number(resolution)
             res2 = _resolution2number(self.storage_resolution)
-            if res1 <= res2:
+            if res1 == res2:
             
                 pass
+            
+            elif res1 < res2:
+                # data which are less resolved than the storage cannot be 
+                # attributed to its items (e.g. a pathway type without a tag
+                # would be stored as one more pathway on top of the sum of
+                # the existing ones)
+                raise Exception("Data with resolution = "+resolution
+                                +" cannot be added to a storage with"
+                                +" resolution = "+self.storage_resolution
+                                +". Reduce the storage resolution first.")
             
             else:
                 raise Exception("This TwoDSpectrum does not have enough "
